@@ -61,7 +61,7 @@ spec fn member_at(prefix: Seq<Rc<SemType>>, items: SemType, key: ListNumberKey, 
         ListNumberKey::True => any_upto(prefix, prefix.len() as int, v) || mem(items, v),
     }
 }
-spec fn key_ok(key: ListNumberKey) -> bool {
+pub closed spec fn key_ok(key: ListNumberKey) -> bool {
     match key { ListNumberKey::N { allowed, values } => key_sane(allowed, values@), ListNumberKey::True => true }
 }
 pub broadcast proof fn lemma_picked_step(prefix: Seq<Rc<SemType>>, allowed: bool, values: Seq<N>, n: int, v: Val)
